@@ -156,3 +156,40 @@ func H_C20_prepared() {
 	}
 	verif.Reach("end")
 }
+
+// H_C20_nested: the variable map is the same one for rows inside inner
+// arrays of a nested FROM (also when rows and arrays are siblings).
+func H_C20_nested() {
+	shape := verif.Choose("shape", 2)
+	x := verif.F64("x")
+	verif.Assume(x == x)
+	r := func(id float64) any { return Map{"id": id} }
+	var t []any
+	switch shape {
+	case 0:
+		t = []any{[]any{r(1), r(2)}, []any{r(3)}}
+	case 1:
+		t = []any{r(1), []any{r(2), r(3)}}
+	}
+	vars := map[string]any{"k": x}
+	got, ok := runQuery(Map{"t": t}, "SELECT id, GETVAR('k') AS b, SETVAR('last', id), GETVAR('last') AS l FROM t", WithVars(vars))
+	if !ok {
+		return
+	}
+	row := func(id float64) any { return Map{"id": id, "b": x, "l": id} }
+	var want []any
+	switch shape {
+	case 0:
+		want = []any{[]any{row(1), row(2)}, []any{row(3)}}
+	case 1:
+		want = []any{row(1), []any{row(2), row(3)}}
+	}
+	verif.Assert(verif.Eq(got, want), "registers-inside-inner-arrays")
+	if shape == 0 {
+		// (with rows and arrays as siblings the inner arrays are evaluated while
+		// the level is scanned and the plain rows after it: source order is
+		// only claimed for homogeneous levels)
+		verif.Assert(verif.Eq(vars, map[string]any{"k": x, "last": float64(3)}), "final-map")
+	}
+	verif.Reach("end")
+}
